@@ -225,6 +225,12 @@ pub fn spec(check: &str, tier: &str) -> Option<CheckSpec> {
         }
         "C07" => {
             let (mut progs, mut level) = lock_programs(tier);
+            if tier != "quick" {
+                // four contending threads (C07 only: the other users of the LOCK family are already long)
+                progs.extend(fam::lock_family(1, 0, 4, 2, 8, true, false));
+                progs.extend(fam::lock_family(0, 1, 4, 2, 8, true, false));
+                level.push_str("; 4 threads x 2 ops on one mutex / one rwlock");
+            }
             progs.extend(fam::race_s_lock(tier));
             level.push_str("; + two cell accesses inserted at every pair of positions into 2-3 thread lock programs (hand-over ordering as a race verdict)");
             Some(CheckSpec {
@@ -524,7 +530,7 @@ pub fn spec(check: &str, tier: &str) -> Option<CheckSpec> {
                 }
                 js
             };
-            let (da, dl) = if tier == "quick" { (4, 5) } else { (6, 7) };
+            let (da, dl) = if tier == "quick" { (4, 5) } else { (7, 8) };
             progs.extend(fam::arc_seq_family(da));
             progs.extend(fam::alloc_seq_family(dl));
             let l1 = format!("{}; STAT programs whose thread-locals / lazy statics own an Arc; ARC-seq: every main-only sequence of <= {} handle ops with a release followed by a new Arc; ALLOC-seq: every sequence of <= {} alloc/dealloc/Track/Arc ops", l1, da, dl);
@@ -542,7 +548,7 @@ pub fn spec(check: &str, tier: &str) -> Option<CheckSpec> {
         }
         "C11" => {
             let (mut progs, level) = arc_programs(tier, false);
-            let da = if tier == "quick" { 4 } else { 6 };
+            let da = if tier == "quick" { 4 } else { 7 };
             progs.extend(fam::arc_seq_family(da));
             let level = format!("{}; ARC-seq: every main-only sequence of <= {} handle ops with a release followed by a new Arc", level, da);
             Some(CheckSpec {
